@@ -69,7 +69,11 @@ impl Data {
     pub fn new<T: AsRef<str>>(input: T) -> Result<Self, Error> {
         use BdlBlockType::*;
 
+        #[cfg(cteenergymodel_verif)]
+        crate::verif_hooks::point("parse:bdl:entry");
         let blocks = build_blocks(input.as_ref())?;
+        #[cfg(cteenergymodel_verif)]
+        crate::verif_hooks::point("parse:bdl:blocks");
 
         let mut db_blocks = Vec::new();
         let mut poly_blocks = Vec::new();
@@ -94,6 +98,8 @@ impl Data {
             }
         }
 
+        #[cfg(cteenergymodel_verif)]
+        crate::verif_hooks::point("parse:bdl:db");
         // Materiales y construcciones ---------------------------------------------
 
         let mut materials: BTreeMap<String, db::Material> = BTreeMap::new();
@@ -177,6 +183,8 @@ impl Data {
             wincons,
         };
 
+        #[cfg(cteenergymodel_verif)]
+        crate::verif_hooks::point("parse:bdl:floors");
         // Plantas y polígonos -----------------------------------------------------
 
         // Separa polígonos (POLYGON) -----------
@@ -194,6 +202,8 @@ impl Data {
             floors.insert(block.name.clone(), envelope::Floor::try_from(block)?);
         }
 
+        #[cfg(cteenergymodel_verif)]
+        crate::verif_hooks::point("parse:bdl:schedules");
         // Horarios --------------------------------------
         let mut schedules: Vec<systems::Schedule> = Vec::new();
 
@@ -240,6 +250,8 @@ impl Data {
             schedules = unique;
         }
 
+        #[cfg(cteenergymodel_verif)]
+        crate::verif_hooks::point("parse:bdl:envelope");
         // Componentes de la envolvente ===============
         // Necesita tener los constructions, floors y polygons ya resueltos
         // También necesita resueltas las cargas (spaces_conditions) y consignas (system_conditions)
